@@ -114,22 +114,6 @@ impl<'tree, D: Doc> MetaVarEnv<'tree, D> {
     var_matchers: &HashMap<MetaVariableID, M>,
   ) -> bool {
     let mut env = Cow::Borrowed(self);
-    #[cfg(feature = "verif-hooks")]
-    if var_matchers.len() > 1 {
-      let keys: Vec<&str> = self
-        .single_matched
-        .keys()
-        .filter(|k| var_matchers.contains_key(*k))
-        .map(|k| k.as_str())
-        .collect();
-      crate::verif::emit(
-        "order",
-        &[
-          ("site", crate::verif::V::S("constraints")),
-          ("keys", crate::verif::V::S(&keys.join(","))),
-        ],
-      );
-    }
     // a constraint can bind further variables that later constraints see,
     // so check them in a fixed order instead of the hash map's
     let mut constrained: Vec<_> = self
@@ -138,6 +122,17 @@ impl<'tree, D: Doc> MetaVarEnv<'tree, D> {
       .filter_map(|(var_id, candidate)| Some((var_id, candidate, var_matchers.get(var_id)?)))
       .collect();
     constrained.sort_unstable_by_key(|(var_id, _, _)| *var_id);
+    #[cfg(feature = "verif-hooks")]
+    if var_matchers.len() > 1 {
+      let keys: Vec<&str> = constrained.iter().map(|(k, _, _)| k.as_str()).collect();
+      crate::verif::emit(
+        "order",
+        &[
+          ("site", crate::verif::V::S("constraints")),
+          ("keys", crate::verif::V::S(&keys.join(","))),
+        ],
+      );
+    }
     for (_, candidate, m) in constrained {
       if m.match_node_with_env(candidate.clone(), &mut env).is_none() {
         return false;
